@@ -835,7 +835,7 @@ class Image:
             Image: image with boolean values
 
         """
-        result = darsia.zeros_like(self, mode="voxels", dtype=bool)
+        result = darsia.zeros_like(self, mode="shape", dtype=bool)
         if isinstance(other, Image):
             result.img = self.img < other.img
         else:
@@ -852,7 +852,7 @@ class Image:
             Image: image with boolean values
 
         """
-        result = darsia.zeros_like(self, mode="voxels", dtype=bool)
+        result = darsia.zeros_like(self, mode="shape", dtype=bool)
         if isinstance(other, Image):
             result.img = self.img > other.img
         else:
@@ -869,7 +869,7 @@ class Image:
             Image: image with boolean values
 
         """
-        result = darsia.zeros_like(self, mode="voxels", dtype=bool)
+        result = darsia.zeros_like(self, mode="shape", dtype=bool)
         if isinstance(other, Image):
             result.img = self.img == other.img
         else:
@@ -886,7 +886,7 @@ class Image:
             Image: image with boolean values
 
         """
-        result = darsia.zeros_like(self, mode="voxels", dtype=bool)
+        result = darsia.zeros_like(self, mode="shape", dtype=bool)
         if isinstance(other, Image):
             result.img = self.img <= other.img
         else:
@@ -903,7 +903,7 @@ class Image:
             Image: image with boolean values
 
         """
-        result = darsia.zeros_like(self, mode="voxels", dtype=bool)
+        result = darsia.zeros_like(self, mode="shape", dtype=bool)
         if isinstance(other, Image):
             result.img = self.img >= other.img
         else:
